@@ -158,7 +158,7 @@ int tinyjambu_prng_init_user
     }
 
     /* Obtain entropy input from the system */
-    if ((*callback)(user_data, pstate->V, sizeof(pstate->V))
+    if ((*(pstate->callback))(pstate->user_data, pstate->V, sizeof(pstate->V))
             == sizeof(pstate->V)) {
         seeded = 1;
     }
